@@ -116,8 +116,10 @@ where
         let modifiers = ["inv", "omit_fwd", "omit_inv"];
         // (at most once per element, or a step consisting of nothing but
         // modifiers would keep us rotating forever)
+        // A modifier may also be written in its explicit form, e.g. `inv=true`
         for _ in 0..elements.len() {
-            if !modifiers.contains(&elements[0]) {
+            let key = elements[0].split('=').next().unwrap_or_default();
+            if !modifiers.contains(&key) {
                 break;
             }
             elements.rotate_left(1);
